@@ -3,6 +3,7 @@ package main
 // Trusted specifications of library functions (assumed; listed in every evidence file that uses them).
 
 import (
+	"go/token"
 	"fmt"
 	"go/types"
 	"strings"
@@ -212,6 +213,7 @@ func initLibSpecs() {
 		return Val{T: c.Signature().Results(), Terms: []string{r, sz}}
 	}}
 	L["(*regexp.Regexp).FindStringSubmatch"] = &libSpec{allocs: true, fn: specFindStringSubmatch}
+	L["(*regexp.Regexp).Split"] = &libSpec{allocs: true, fn: specRegexSplit}
 	L["(*bytes.Buffer).WriteTo"] = &libSpec{ghosts: []string{"$flushes", "$out", "$out_other", "$compout"}, fn: func(s *State, c *ssa.CallCommon, args []Val, where string) Val {
 		s.trust("(*bytes.Buffer).WriteTo(w) issues the buffered bytes to w and empties the buffer; counted as one flush event ($flushes) when that ghost is declared")
 		if _, ok := s.eng.ghostDecls["$flushes"]; ok {
@@ -508,6 +510,56 @@ func specFindStringSubmatch(s *State, c *ssa.CallCommon, args []Val, where strin
 	arrc := s.define("groups", arrSort(sInt, sString), arr)
 	v := Val{T: rt, Terms: []string{ite(match, "4", "0"), not(match), arrc}}
 	return v
+}
+
+// specRegexSplit: regexp.MustCompile(`\s+`).Split(s, -1) is the uninterpreted word list of s (ws_count / ws_words): the
+// pieces of s between maximal runs of ASCII white space [\t\n\f\r ], at least one piece. Any other pattern or limit is opaque.
+func specRegexSplit(s *State, c *ssa.CallCommon, args []Val, where string) Val {
+	rt := c.Signature().Results().At(0).Type()
+	pat, ok := s.eng.regexOf(args[0])
+	if !ok {
+		pat, ok = localRegexOf(c.Args[0])
+	}
+	if k, isK := c.Args[2].(*ssa.Const); !isK || k.Value == nil || k.Int64() >= 0 {
+		ok = false
+	}
+	if !ok || pat != `\s+` {
+		s.eng.assumptionsUsed["regexp with an unrecognised pattern: result opaque"] = true
+		s.bumpAllocTyped(resultTags(c), false)
+		return s.freshResult(c, "regex")
+	}
+	s.trust("regexp \\s+ Split(s, -1): the word list of s (uninterpreted ws_count/ws_words; at least one word; the words of s between maximal runs of [\\t\\n\\f\\r ])")
+	x := args[1].Terms[0]
+	arr := s.define("words", arrSort(sInt, sString), app("ws_words", x))
+	n := s.define("nwords", sInt, app("ws_count", x))
+	s.assume(app("<=", "1", n))
+	s.bumpAllocTyped(resultTags(c), false)
+	return Val{T: rt, Terms: []string{n, "false", arr}}
+}
+
+// localRegexOf: the constant pattern of a *regexp.Regexp held in a local variable that is assigned once from regexp.MustCompile(constant).
+func localRegexOf(v ssa.Value) (string, bool) {
+	if u, ok := v.(*ssa.UnOp); ok && u.Op == token.MUL {
+		a, ok := u.X.(*ssa.Alloc)
+		if !ok || !assignedOnce(a) {
+			return "", false
+		}
+		for _, r := range *a.Referrers() {
+			if st, ok := r.(*ssa.Store); ok {
+				v = st.Val
+			}
+		}
+	}
+	call, ok := v.(*ssa.Call)
+	if !ok {
+		return "", false
+	}
+	if cal := call.Common().StaticCallee(); cal != nil && cal.String() == "regexp.MustCompile" {
+		if k, ok := call.Common().Args[0].(*ssa.Const); ok && k.Value != nil {
+			return constantString(k), true
+		}
+	}
+	return "", false
 }
 
 // regexOf finds the pattern a *regexp.Regexp value was compiled from (package-level vars initialised with MustCompile(constant)).
